@@ -281,6 +281,17 @@ class SecNode:
         the unvisited nodes to be dismantled at the end.
         Taken from Introduction to Algorithms [CLRS].
         """
+        def attached_names(modobj):
+            # attachedModules is filled on first access only: a module touching its
+            # attachment late (in shutdownModule) or never must be shut down first, too
+            names = [m.name for m in modobj.attachedModules.values()]
+            for pname, prop in modobj.propertyDict.items():
+                if hasattr(prop, 'basecls'):  # an Attached property
+                    attached = modobj.propertyValues.get(pname)
+                    if attached in self.modules and attached not in names:
+                        names.append(attached)
+            return names
+
         def go(name):
             if name in done:  # visiting a node
                 return True
@@ -290,8 +301,8 @@ class SecNode:
             visited.add(name)
             if name in unmarked:
                 unmarked.remove(name)
-            for module in self.modules[name].attachedModules.values():
-                res = go(module.name)
+            for attached in attached_names(self.modules[name]):
+                res = go(attached)
                 if not res:
                     return False
             visited.remove(name)
